@@ -1,0 +1,132 @@
+//go:build verif
+// +build verif
+
+package index
+
+import (
+	"bytes"
+	"fmt"
+	"sort"
+	"sync/atomic"
+
+	uuid "github.com/satori/go.uuid"
+)
+
+// Read-only introspection for the simulation harness in /verif (build tag
+// "verif"). Nothing here is compiled into the shipped binaries.
+
+type VerifEdge struct {
+	To        uuid.UUID
+	Dist      float32
+	ToDeleted bool // the linked vertex object carries a tombstone
+	ToStored  bool // the linked vertex object is the one currently stored under its id
+	ToLevel   int
+}
+
+type VerifVertex struct {
+	Id       uuid.UUID
+	Vector   []float32
+	Metadata map[string]string
+	Level    int
+	Deleted  bool
+	Edges    [][]VerifEdge // index = level
+}
+
+type VerifState struct {
+	Len               uint64 // raw item counter
+	DataBytes         uint64 // raw data-bytes counter
+	Dim               uint
+	Space             string
+	HasEntrypoint     bool
+	Entrypoint        uuid.UUID
+	EntrypointDeleted bool
+	EntrypointStored  bool
+	EntrypointLevel   int
+	Vertices          []VerifVertex // stored vertices, sorted by id
+
+	M, MMax, MMax0, Ef, EfConstruction int
+	Algorithm                          int
+	LevelMultiplier                    float32
+}
+
+// VerifDump copies the observable state of the index. It takes the same read
+// locks a reader would take; call it when no writer is active if a consistent
+// cut is needed.
+func (this *Hnsw) VerifDump() *VerifState {
+	st := &VerifState{
+		Len:             atomic.LoadUint64(&this.len),
+		DataBytes:       atomic.LoadUint64(&this.bytesSize),
+		Dim:             this.size,
+		Space:           fmt.Sprintf("%s", this.space),
+		M:               this.config.m,
+		MMax:            this.config.mMax,
+		MMax0:           this.config.mMax0,
+		Ef:              this.config.ef,
+		EfConstruction:  this.config.efConstruction,
+		Algorithm:       int(this.config.searchAlgorithm),
+		LevelMultiplier: this.config.levelMultiplier,
+	}
+	stored := func(v *hnswVertex) bool {
+		if v == nil {
+			return false
+		}
+		m, mu := this.getVerticesShard(v.id)
+		mu.RLock()
+		defer mu.RUnlock()
+		return m[v.id] == v
+	}
+	if ep := (*hnswVertex)(atomic.LoadPointer(&this.entrypoint)); ep != nil {
+		st.HasEntrypoint = true
+		st.Entrypoint = ep.id
+		st.EntrypointDeleted = ep.isDeleted()
+		st.EntrypointStored = stored(ep)
+		st.EntrypointLevel = ep.level
+	}
+	var all []*hnswVertex
+	for i := range this.vertices {
+		this.verticesMu[i].RLock()
+		for _, v := range this.vertices[i] {
+			all = append(all, v)
+		}
+		this.verticesMu[i].RUnlock()
+	}
+	sort.Slice(all, func(i, j int) bool { return bytes.Compare(all[i].id[:], all[j].id[:]) < 0 })
+	for _, v := range all {
+		vv := VerifVertex{
+			Id:      v.id,
+			Vector:  append([]float32(nil), v.vector...),
+			Level:   v.level,
+			Deleted: v.isDeleted(),
+		}
+		if v.metadata != nil {
+			vv.Metadata = make(map[string]string, len(v.metadata))
+			for k, val := range v.metadata {
+				vv.Metadata[k] = val
+			}
+		}
+		vv.Edges = make([][]VerifEdge, len(v.edges))
+		for l := range v.edges {
+			v.edgeMutexes[l].RLock()
+			for n, d := range v.edges[l] {
+				e := VerifEdge{Dist: d}
+				if n != nil {
+					e.To = n.id
+					e.ToDeleted = n.isDeleted()
+					e.ToLevel = n.level
+					e.ToStored = stored(n)
+				}
+				vv.Edges[l] = append(vv.Edges[l], e)
+			}
+			v.edgeMutexes[l].RUnlock()
+			sort.Slice(vv.Edges[l], func(i, j int) bool {
+				a, b := vv.Edges[l][i], vv.Edges[l][j]
+				if c := bytes.Compare(a.To[:], b.To[:]); c != 0 {
+					return c < 0
+				}
+				return !a.ToDeleted && b.ToDeleted
+			})
+		}
+		st.Vertices = append(st.Vertices, vv)
+	}
+	return st
+}
